@@ -1,9 +1,10 @@
 package props
 
 import (
-	"github.com/q191201771/lal/pkg/rtsp"
 	"bytes"
+	"encoding/json"
 	"fmt"
+	"github.com/q191201771/lal/pkg/rtsp"
 	"os"
 	"path/filepath"
 	"sort"
@@ -628,8 +629,8 @@ func init() {
 		Rule: "one case = one whole-server run: a seeded elementary stream (AVC / HEVC classic / HEVC enhanced-RTMP / no video × AAC (13 sampling indices × 1–7 channels × object types 1–4) / Opus / G.711 / no audio; 1–6 tagged NAL units per frame sized 1 B…400 KiB around multiples of 184/1200/4096; in-band parameter sets (complete, partial, on their own, and one in-band change of the PPS, the new PPS arriving next to its SPS or on its own), a second AAC sequence header with another configuration, one-byte Opus / G.711 frames, AUD, SEI, B-frame composition offsets, timestamp start near 0xFFFFFF / 2^31, a forward jump, sparse audio; metadata that names the audio codec id, with or without the source's sampling rate - 16 kHz for Opus) is published by the reference RTMP client; consumers: HTTP-TS from the start, RTSP over interleaved TCP and over UDP joining mid-stream, HLS (playlist + every segment fetched after the stream ends). " +
 			"oracle: reference TS demuxer / ADTS / Annex-B splitters and RFC 6184/7798/3640 depacketisers recover frames which must equal the published ones per track (after dropping AUD, re-inserted parameter sets, H.265 SEI on TS), in order, exactly once, to the end; DTS/PTS−90·ts constant per track per consumer; RTP timestamp within one tick; ADTS header = ASC; SDP sprop/config = published parameter sets. cell = consumer × codec pair.",
 		Assumptions: []string{"reference demuxer / depacketisers (harness/ref)", "a UDP consumer with an RTP sequence gap is inconclusive (kernel drop cannot be told apart)", "G.711 is not carried in TS (audio PID absent is accepted)"},
-		MinCells: 8,
-		Run:      c06Run,
+		MinCells:    8,
+		Run:         c06Run,
 	})
 }
 
@@ -645,7 +646,7 @@ func c06Run(c *fw.Ctx, i int) {
 	root := filepath.Join(c.Scratch, fmt.Sprintf("c06-%d", i))
 	os.MkdirAll(root, 0755)
 	defer os.RemoveAll(root)
-	conf := srv.Conf{Ts: true, Hls: true, HlsMem: i%2 == 0, HlsFragMs: 1000, HlsFragNum: 4000, HlsDelThr: 4000, HlsCleanup: 0, Rtsp: true, RtspWaitKey: true, Flv: true}
+	conf := srv.Conf{Ts: true, Hls: true, HlsMem: i%2 == 0, HlsFragMs: 1000, HlsFragNum: 4000, HlsDelThr: 4000, HlsCleanup: 0, Rtsp: true, RtspWaitKey: true, Flv: true, Api: true}
 	s, err := srv.Start(conf, root)
 	if err != nil {
 		c.Inconclusive("server start: %v", err)
@@ -655,6 +656,24 @@ func c06Run(c *fw.Ctx, i int) {
 	defer s.Stop()
 	name := fmt.Sprintf("m%d", i)
 	desc := fmt.Sprintf("spec=%+v", sp)
+	// every seventh case the stream enters the server under test through an RTMP relay pull from a second lal (the
+	// pull session is an RTMP *client* session: other buffers, other life times than the publish path)
+	viaPull := i%7 == 5
+	ingest := s
+	if viaPull {
+		root2 := filepath.Join(c.Scratch, fmt.Sprintf("c06-%d-origin", i))
+		os.MkdirAll(root2, 0755)
+		defer os.RemoveAll(root2)
+		o, err := srv.Start(srv.Conf{}, root2)
+		if err != nil {
+			c.Inconclusive("origin server start: %v", err)
+			return
+		}
+		defer o.Stop()
+		ingest = o
+		desc = "ingest=relay-pull " + desc
+		c.Count("cases_via_relay_pull", 1)
+	}
 	c.Describe("%s", desc)
 	jd := &c06Judge{c: c, es: es, desc: desc}
 	nHdr := 0
@@ -672,20 +691,31 @@ func c06Run(c *fw.Ctx, i int) {
 	defer tsSub.Close()
 	s.Notify.WaitSession(5*time.Second, "sub_start", srv.Key(tsSub.Conn))
 	cons := []*c06Consumer{{Kind: "rtsp-tcp", JoinAt: nHdr + c.Rng.Intn(len(msgs)/2)}, {Kind: "rtsp-udp", JoinAt: nHdr + c.Rng.Intn(len(msgs)/2)}, {Kind: "ts-late", JoinAt: nHdr + c.Rng.Intn(len(msgs)/2)}}
-	pub, err := ref.StartRtmpPublisher(s.RtmpAddr(), "live", name, 5*time.Second)
+	pub, err := ref.StartRtmpPublisher(ingest.RtmpAddr(), "live", name, 5*time.Second)
 	if err != nil {
 		c.Inconclusive("publisher: %v", err)
 		return
 	}
 	defer pub.Close()
-	if _, ok := s.Notify.WaitSession(5*time.Second, "pub_start", srv.Key(pub.RC.Conn)); !ok {
+	if _, ok := ingest.Notify.WaitSession(5*time.Second, "pub_start", srv.Key(pub.RC.Conn)); !ok {
 		c.Inconclusive("publisher not accepted")
 		return
 	}
 	pub.RC.SetChunkSize(60000)
+	if viaPull {
+		from := s.Notify.Len()
+		body, _ := json.Marshal(map[string]interface{}{"url": "rtmp://" + ingest.RtmpAddr() + "/live/" + name, "stream_name": name, "pull_timeout_ms": 5000, "pull_retry_num": 0, "auto_stop_pull_after_no_out_ms": -1})
+		srv.HttpPostJson(s.ApiAddr(), "/api/ctrl/start_relay_pull", string(body), 3*time.Second)
+		if _, ok := s.Notify.Wait(6*time.Second, from, func(ev srv.Event) bool { return ev.Kind == "pull_start" && ev.StreamName == name }); !ok {
+			c.Inconclusive("relay pull did not attach")
+			return
+		}
+	}
 	hook := hooks.Latest(name)
 	sent := 0
-	waitProcessed := func() bool { return srv.WaitFor(10*time.Second, func() bool { return hook != nil && hook.Count() >= sent }) }
+	waitProcessed := func() bool {
+		return srv.WaitFor(10*time.Second, func() bool { return hook != nil && hook.Count() >= sent })
+	}
 	udpBefore := udpErrors()
 	burst := 0
 	var joinWg sync.WaitGroup
@@ -791,7 +821,16 @@ func c06Run(c *fw.Ctx, i int) {
 	quiet()
 	paddr := srv.Key(pub.RC.Conn)
 	pub.Close()
-	s.Notify.WaitSession(5*time.Second, "pub_stop", paddr)
+	if viaPull {
+		// the origin keeps its subscribers when its publisher leaves; the input of the server under test ends when
+		// the pull is stopped
+		ingest.Notify.WaitSession(5*time.Second, "pub_stop", paddr)
+		from := s.Notify.Len()
+		srv.HttpGet(s.ApiAddr(), "/api/ctrl/stop_relay_pull?stream_name="+name, 3*time.Second)
+		s.Notify.Wait(5*time.Second, from, func(ev srv.Event) bool { return ev.Kind == "pull_stop" && ev.StreamName == name })
+	} else {
+		s.Notify.WaitSession(5*time.Second, "pub_stop", paddr)
+	}
 	quiet()
 	udpAfter := udpErrors()
 	// HLS: playlist and segments through lal's own HTTP handler
